@@ -6,6 +6,7 @@ import (
 	"fmt"
 	"os"
 	"runtime"
+	"strings"
 	"time"
 
 	ethtypes "github.com/ethereum/go-ethereum/core/types"
@@ -17,7 +18,7 @@ import (
 	"verifharness/internal/evid"
 )
 
-var stepWatchdog = 20 * time.Second // one logical wait; firing = inconclusive
+var stepWatchdog = 30 * time.Second // one logical wait; firing = inconclusive
 
 const maxRestarts = 4
 
@@ -181,10 +182,20 @@ func (r *runner) stopSession() bool {
 func (r *runner) afterWait(ok bool, what string) (goOn bool, restarted bool) {
 	if !ok {
 		r.inconcl = "watchdog fired while waiting for: " + what
+		buf := make([]byte, 1<<22)
+		buf = buf[:runtime.Stack(buf, true)]
+		if where := clientBlockedIn(string(buf)); where != "" {
+			r.inconcl += " [the execution client is blocked in " + where + "]"
+			r.c.Count("client_stalled_in_"+where, 1)
+		}
 		if os.Getenv("C13_DEBUG") != "" {
-			buf := make([]byte, 1<<22)
-			buf = buf[:runtime.Stack(buf, true)]
 			fmt.Fprintf(os.Stderr, "== watchdog (%s); goroutines:\n%s\n", what, buf)
+		}
+		if d := os.Getenv("C13_DUMP_DIR"); d != "" { // debugging aid: full timeline + goroutines of a case that hit the watchdog
+			r.n.mu.Lock()
+			tl := strings.Join(r.n.timeline, "\n")
+			r.n.mu.Unlock()
+			_ = os.WriteFile(fmt.Sprintf("%s/watchdog-%s-c%d-i%d.txt", d, r.p.Lane, r.c.Idx, r.c.Index), []byte(what+"\n"+tl+"\n\n"+string(buf)), 0o644)
 		}
 		return false, false
 	}
@@ -244,6 +255,25 @@ func (r *runner) barrier() {
 	ctx, cancel := context.WithTimeout(context.Background(), 5*time.Second)
 	_ = r.sess.ec.Healthy(ctx)
 	cancel()
+}
+
+// clientBlockedIn looks, after a watchdog fired, for the execution client's goroutine sitting in a go-ethereum rpc call
+// that has no deadline (diagnosis for the report only; the case stays inconclusive).
+func clientBlockedIn(stacks string) string {
+	for _, g := range strings.Split(stacks, "\n\n") {
+		if !strings.Contains(g, "rpc.(*requestOp).wait") {
+			continue
+		}
+		switch {
+		case strings.Contains(g, "requestUnsubscribe"):
+			return "ClientSubscription.Unsubscribe->eth_unsubscribe"
+		case strings.Contains(g, "FilterLogs"):
+			return "FilterLogs"
+		case strings.Contains(g, "EthSubscribe") || strings.Contains(g, "SubscribeNewHead"):
+			return "SubscribeNewHead"
+		}
+	}
+	return ""
 }
 
 // trailingFailures: failures the node saw since the last successful eth_getLogs.
